@@ -90,13 +90,17 @@ pub struct Session {
     pub late: Option<(usize, StorageFault)>,
     pub late_applied: bool,
     pub halted: bool,
+    /// longest length of each stream seen so far (keyed by the simulator's address)
+    longest: Vec<(usize, u64)>,
+    /// bytes given to the reader through another stream (the init part of a fragment reader)
+    pub n_extra: u64,
     api_no: u32,
     cpu0: u64,
 }
 
 impl Session {
     pub fn new(cfg: SessionCfg, late: Option<(usize, StorageFault)>) -> Self {
-        Session { cfg, recs: Vec::new(), late, late_applied: false, halted: false, api_no: 0, cpu0: cpu_micros() }
+        Session { cfg, recs: Vec::new(), late, late_applied: false, halted: false, longest: Vec::new(), n_extra: 0, api_no: 0, cpu0: cpu_micros() }
     }
 
     fn prepare(&mut self, sim: &SimRef) -> u64 {
@@ -111,7 +115,22 @@ impl Session {
             }
         }
         let mut s = sim.borrow_mut();
-        let n = s.disk.len();
+        // n = the bytes this reader has been given: the longest its stream has been during the
+        // session (a later truncation does not shrink what was already parsed) plus, for a
+        // fragment reader, the initialisation part it was derived from
+        let key = std::rc::Rc::as_ptr(sim) as usize;
+        let cur = s.disk.len();
+        let longest = match self.longest.iter_mut().find(|(k, _)| *k == key) {
+            Some((_, l)) => {
+                *l = (*l).max(cur);
+                *l
+            }
+            None => {
+                self.longest.push((key, cur));
+                cur
+            }
+        };
+        let n = longest + self.n_extra;
         s.budget_ops = self.cfg.budget_ops_base + self.cfg.budget_ops_per_byte * n;
         s.budget_bytes = self.cfg.budget_bytes_base + self.cfg.budget_bytes_per_byte * n;
         s.budget_tripped = false;
@@ -381,9 +400,12 @@ pub fn run_schedule(se: &mut Session, spec: &RunSpec) -> Vec<SimRef> {
                 let ssim = new_sim(seg, se.cfg.chunking);
                 sims.push(ssim.clone());
                 let fs = SimFile::new(&ssim);
+                // the fragment reader carries the parsed initialisation part along
+                se.n_extra = ilen;
                 if let Some(mut fr) = se.call(&ssim, "read_fragment_header", true, || init.read_fragment_header(fs, slen)) {
                     exercise(se, &ssim, &mut fr, spec.extra_ids);
                 }
+                se.n_extra = 0;
             }
         }
     }
